@@ -103,4 +103,75 @@ theorem find?_map_key {β : Type} (g : Id → β) (n : Id) : ∀ (l : List Id),
     · have : ¬ n = k := fun e => h e.symm
       simp [h, this, find?_map_key g n ks]
 
+/-! ### the follower's node-list merge -/
+
+theorem foldl_addNode_sorted : ∀ (l : List Id) {nodes : List Id}, Sorted nodes → Sorted (l.foldl addNode nodes)
+  | [], _, h => h
+  | _ :: xs, _, h => foldl_addNode_sorted xs (addNode_sorted h)
+
+theorem mem_foldl_addNode {x : Id} : ∀ (l : List Id) {nodes : List Id},
+    x ∈ l.foldl addNode nodes ↔ x ∈ nodes ∨ x ∈ l
+  | [], _ => by simp
+  | y :: ys, nodes => by
+    simp only [foldl_cons, mem_foldl_addNode ys, mem_addNode, mem_cons]
+    constructor
+    · rintro ((h | h) | h)
+      · exact Or.inr (Or.inl h)
+      · exact Or.inl h
+      · exact Or.inr (Or.inr h)
+    · rintro (h | h | h)
+      · exact Or.inl (Or.inr h)
+      · exact Or.inl (Or.inl h)
+      · exact Or.inr h
+
+theorem foldl_removeNode_sorted : ∀ (rs : List Id) {nodes : List Id}, Sorted nodes → Sorted (rs.foldl removeNode nodes)
+  | [], _, h => h
+  | _ :: xs, _, h => foldl_removeNode_sorted xs (removeNode_sorted h)
+
+theorem mem_foldl_removeNode {x : Id} : ∀ (rs : List Id) {nodes : List Id}, Sorted nodes →
+    (x ∈ rs.foldl removeNode nodes ↔ x ∈ nodes ∧ x ∉ rs)
+  | [], _, _ => by simp
+  | y :: ys, nodes, h => by
+    simp only [foldl_cons, mem_foldl_removeNode ys (removeNode_sorted h), mem_removeNode h.nodup, mem_cons,
+      not_or]
+    constructor
+    · rintro ⟨⟨h1, h2⟩, h3⟩; exact ⟨h1, h2, h3⟩
+    · rintro ⟨h1, h2, h3⟩; exact ⟨⟨h1, h2⟩, h3⟩
+
+theorem mergeNodes_sorted {nodes : List Id} (h : Sorted nodes) (self : Id) (official : List Id) :
+    Sorted (mergeNodes nodes self official) :=
+  foldl_removeNode_sorted _ (foldl_addNode_sorted official h)
+
+/-- after the merge the node list holds the official nodes, plus this node if it was listed before -/
+theorem mem_mergeNodes {nodes : List Id} (h : Sorted nodes) {self : Id} {official : List Id} {x : Id} :
+    x ∈ mergeNodes nodes self official ↔ x ∈ official ∨ (x = self ∧ x ∈ nodes) := by
+  unfold mergeNodes
+  simp only
+  rw [mem_foldl_removeNode _ (foldl_addNode_sorted official h), mem_filter, mem_foldl_addNode]
+  by_cases ho : x ∈ official
+  · have : containsID official x = true := containsID_iff.mpr ho
+    simp [ho, this]
+  · have : containsID official x = false := by
+      cases hc : containsID official x with
+      | false => rfl
+      | true => exact absurd (containsID_iff.mp hc) ho
+    by_cases hs : x = self
+    · subst hs; simp [ho, or_comm]
+    · simp [ho, hs, this]
+
+/-- a follower that stays in the cluster ends up with exactly the final ring -/
+theorem mergeNodes_eq_final {nodes : List Id} (h : Sorted nodes) {self : Id} {official : List Id}
+    (hself : self ∈ official ∨ self ∉ nodes) :
+    mergeNodes nodes self official = run (official.map Ev.join) := by
+  apply sorted_unique (mergeNodes_sorted h self official) (run_sorted _)
+  intro x
+  rw [mem_mergeNodes h, mem_run_joins]
+  constructor
+  · rintro (h1 | ⟨rfl, h2⟩)
+    · exact h1
+    · rcases hself with h3 | h3
+      · exact h3
+      · exact absurd h2 h3
+  · exact Or.inl
+
 end PV.C21
